@@ -22,6 +22,26 @@ static int op_x25519(int argc, char **argv, FILE *o) {
       if (r1 != rc || (rc == 0 && memcmp(a1, q, 32))) fputs("INPLACE-P-DIFFERS ", o); }
     rc_hex(o, rc, q, 32); fb(b, NB); return 0;
 }
+/* bulk.x25519 <seed> <lo> <hi>: FNV digest of crypto_scalarmult_curve25519 over the pseudo-random (scalar, point) pairs number lo..hi-1 of the
+   stream defined by <seed> (splitmix64): the same line gives the same pairs in every build / CPU mask, so digests can be compared across
+   backends and a difference bisected to a single pair. bulk.x25519.pair <seed> <i> prints pair i. */
+static uint64_t sm64(uint64_t *s) { uint64_t z = (*s += 0x9e3779b97f4a7c15ULL); z = (z ^ (z >> 30)) * 0xbf58476d1ce4e5b9ULL; z = (z ^ (z >> 27)) * 0x94d049bb133111ebULL; return z ^ (z >> 31); }
+static void bulk_pair(uint64_t seed, uint64_t i, unsigned char n[32], unsigned char p[32]) {
+    uint64_t st = seed * 0x2545F4914F6CDD1DULL + i * 0x9E3779B97F4A7C15ULL, w; int k;
+    for (k = 0; k < 4; k++) { w = sm64(&st); memcpy(n + 8 * k, &w, 8); }
+    for (k = 0; k < 4; k++) { w = sm64(&st); memcpy(p + 8 * k, &w, 8); }
+}
+static int op_bulk_x25519(int argc, char **argv, FILE *o) {
+    uint64_t seed, lo, hi, i, h = FNV_INIT; unsigned char n[32], p[32], q[32]; int rc;
+    if (argc != 3 || hx_u64(argv[0], &seed) || hx_u64(argv[1], &lo) || hx_u64(argv[2], &hi) || hi < lo || hi - lo > 5000000) return -1;
+    for (i = lo; i < hi; i++) { bulk_pair(seed, i, n, p); memset(q, 0, 32); rc = crypto_scalarmult_curve25519(q, n, p); h = fnv_bytes(h, &rc, sizeof rc); h = fnv_bytes(h, q, 32); }
+    fprintf(o, "%016llx", (unsigned long long) h); return 0;
+}
+static int op_bulk_pair(int argc, char **argv, FILE *o) {
+    uint64_t seed, i; unsigned char n[32], p[32];
+    if (argc != 2 || hx_u64(argv[0], &seed) || hx_u64(argv[1], &i)) return -1;
+    bulk_pair(seed, i, n, p); hx_put_hex(o, n, 32); fputc(' ', o); hx_put_hex(o, p, 32); return 0;
+}
 static int op_x25519_base(int argc, char **argv, FILE *o) {
     enum { NB = 1 }; buf_t b[NB]; unsigned char q[32], q2[32];
     if (nb(argc, argv, b, NB)) return -1; NEED(0, 32)
@@ -227,7 +247,7 @@ bad:
     hx_free(&x); if (y.p) hx_free(&y); return -1;
 }
 const hx_op ops_c05[] = {
-    {"x25519", op_x25519}, {"x25519.base", op_x25519_base}, {"box.seed_keypair", op_box_seed_keypair}, {"kx.seed_keypair", op_kx_seed_keypair},
+    {"x25519", op_x25519}, {"bulk.x25519", op_bulk_x25519}, {"bulk.x25519.pair", op_bulk_pair}, {"x25519.base", op_x25519_base}, {"box.seed_keypair", op_box_seed_keypair}, {"kx.seed_keypair", op_kx_seed_keypair},
     {"kx.client", op_kx_client}, {"kx.server", op_kx_server}, {"box.easy", op_box_easy}, {"box.open", op_box_open}, {"seal.open", op_seal_open},
     {"sign.seed_keypair", op_sign_seed_keypair}, {"sign.detached", op_sign_detached}, {"sign.verify", op_sign_verify}, {"sign.open", op_sign_open},
     {"sign.ph", op_sign_ph}, {"sign.pk_to_curve", op_pk_to_curve}, {"sign.sk_to_curve", op_sk_to_curve},
